@@ -98,11 +98,16 @@ def alphabet(req: bytes, i: int = 0):
         "s10": fr(1, b""), "s11": fr(1, b"\xaa"), "s20": fr(2, b""), "s21": fr(2, bytes([SRC])),
         "e40": fr(0x40, b""), "e41": fr(0x41, bytes([SRC, DST])), "eFF": fr(0xFF, b"\x01\x02\x03"),
         "e42s": fr(0x42, b"\x07"),
+        # error control words as a gateway sends them: empty body / address body (tester address echoed)
+        "e40a": fr(0x40, bytes([0x00, SRC])), "e42": fr(0x42, b""), "e43a": fr(0x43, bytes([SRC, DST])), "e44": fr(0x44, b""),
+        "e45a": fr(0x45, bytes([DST, SRC])), "eFF0": fr(0xFF, b""), "st11": fr(0x11, b""), "u300a": fr(0x300, bytes([DST, SRC]) + p),
         "st10": fr(0x10, bytes([DST, SRC])), "st13": fr(0x13, b""), "u77": fr(0x77, b""), "u0": fr(0, b"\x00\x00\x00"),
     }
 
 
 CORE = ["ack", "ackP", "ackE", "dT", "dO", "alive", "s11", "e40"]
+# control words other than data / ack / alive check: queued by the reader task as a bare word, whatever the body
+CTRL = ["e40", "e40a", "e41", "e42", "e42s", "e43a", "e44", "e45a", "eFF", "eFF0", "st10", "st11", "st13", "u77", "u0", "u300a"]
 FULL = list(alphabet(REQ_LONG).keys())
 
 
@@ -562,6 +567,31 @@ def spec_check(plan, ops, arrivals, reports):
                                  f"{avail[delivered]['data'].hex()} had been received completely at {avail[delivered]['t']} ms "
                                  f"and not been delivered"))
                     break
+    # S9: error control words surface: the client takes the queue in arrival order, so no call may succeed by a frame
+    # that arrived BEHIND an error / status control word - the k-th delivered payload is the k-th ECU->tester data frame
+    # (S1a), the n-th successful write echoing e needs (at least) the n-th matching ack of the stream: both must lie in
+    # front of the first control word (a call that meets the word ends with a connection error and closes the connection)
+    if not viol and err_arrivals:
+        first_err = min(fr_info.index(e) for e in err_arrivals)
+        ew = fr_info[first_err]
+        ew_show = f"control word {ew['cw']:#x} (frame #{first_err} of the stream, arrived at {ew['t']} ms)"
+        for k, (i, t, pay) in enumerate(got):
+            if k < len(expected) and fr_info.index(expected[k]) > first_err:
+                viol.append(("error-word-not-surfaced", f"read issued at op {i} returned {pay} at {t} ms, a frame that arrived behind "
+                                                        f"{ew_show}: the error never surfaced"))
+                break
+        nth = {}
+        for i, op in client_ops:
+            if op[0] != "write" or i not in results or not results[i][1].startswith("wrote"):
+                continue
+            req = bytes.fromhex(op[1])
+            nth[req[:5]] = nth.get(req[:5], 0) + 1
+            before = [a for a in fr_info[:first_err] if is_ack(a, req)]
+            if len(before) < nth[req[:5]] and any(is_ack(a, req) for a in fr_info[first_err:]):
+                viol.append(("error-word-not-surfaced", f"write of {req.hex()} issued at op {i} ({t_before[i]} ms) completed at "
+                                                        f"{results[i][0]} ms by an ack that arrived behind {ew_show}: the error never "
+                                                        f"surfaced, the connection stays in use"))
+                break
     # S0: a client operation ends with its result, a timeout or a connection error - never with another exception
     for i, op in client_ops:
         if i in results and results[i][1].startswith("exc:"):
